@@ -122,3 +122,13 @@ Fixpoint masks_from (fuel : nat) (c : Z) : list Z :=
   match fuel with O => [] | S f => class_mask c :: masks_from f (c + 1) end.
 Definition c18_class_rle (lo n : Z) : sx :=
   L (map (fun p => L [I (fst p); I (snd p)]) (rle (masks_from (Z.to_nat n) lo))).
+
+(* family "pipelines": ",".join(str(p.pipeline_pass_spec()) for p in passes) and
+   PassPipeline.parse_spec(registry, text); `idx` selects the class of each pass in `reg` *)
+Definition c18_pipeline_rt (ptab : list (str * Z)) (stab : list (Z * str)) (reg : list (pass_class Z))
+           (ps : list (nat * list (pval Z))) : sx :=
+  let specs := flat_map (fun iv => match nth_error reg (fst iv) with
+                                   | Some c => [pass_spec Z feq_bits ifeq_bits c (snd iv)]
+                                   | None => [] end) ps in
+  let text := print_pipeline Z (fstr_tab stab) specs in
+  L [sLZ text; enc_res (fun l => L (map enc_inst l)) (pipeline_from_text Z (fparse_tab ptab) reg text)].
